@@ -188,7 +188,7 @@ macro_rules! rule_instance {
 //@ tier: quick
 //@ timeout: 1800
 //@ mem: 16
-//@ unwindset: ^memcmp#0=34; encode_to|to_hex|hex=70
+//@ unwindset: ^memcmp#0=34; encode_to|to_hex|hex=70; btree=2
 //@ kernel: KeepOptions::{apply, matches, is_valid}, equal_minute / equal_week / equal_day (and the predicates they compose), always_false, SnapshotFile::{must_keep, must_delete, cmp}
 //@ bound: 3 snapshots with symbolic civil times (any valid minute in 2014..=2021, so every ISO week-year edge 2014/15 .. 2021/22 occurs), non-increasing in time, handed over oldest first; one period rule active with count symbolic in -1..=3 (c09_daily_last_3: plus keep-last with symbolic count); delete marks not set
 //@ oracle: result is sorted newest first and snapshot i is kept <=> it is the newest of its period (same minute = same y/m/d/h/mi; same week = same ISO week-year and week; same day = same y/m/d) or the oldest overall, and it is among the first n such candidates (n = -1: all), or keep-last applies; period equality is specified on civil fields / ISO week date
@@ -204,7 +204,7 @@ rule_instance!(c09_daily_last_3, 3, Rule::Daily, true);
 //@ tier: thorough
 //@ timeout: 3000
 //@ mem: 24
-//@ unwindset: ^memcmp#0=34; encode_to|to_hex|hex=70
+//@ unwindset: ^memcmp#0=34; encode_to|to_hex|hex=70; btree=2
 //@ kernel: as c09_minutely_3, all nine period predicates
 //@ bound: as c09_minutely_3 for the remaining rules; c09_weekly_4: 4 snapshots
 //@ oracle: as c09_minutely_3
